@@ -1,8 +1,72 @@
 (* C12 — Marshal is all-or-nothing and never panics.  Statements only; every
    proof is [exact lemma].  The model [marshal] is evaluated by the check on
    every value the implementation marshalled in the run (harness/c12.go). *)
-From V Require Import Model.Pdu Gen.PduLayouts Proofs.PduMarshalProofs.
+From V Require Import Model.Pdu Model.PduHazards Gen.PduLayouts Proofs.PduMarshalProofs Proofs.PduHazardProofs.
 Open Scope N_scope.
+
+(* ===== The Go-hazards layer (Model/PduHazards.v): Marshal written as the Go code is written — private buffer
+   threaded through the walk, in-place patches by bounds-checked index / slice operations that CAN yield Panic,
+   the [goto write] exit, and an explicit destination (what it held before the call, the Write calls it gets, how
+   many more octets it accepts).  [marshal_io] is evaluated by the check on pre-filled *bytes.Buffer destinations,
+   on writers that give up, and [arg_after] on what a call leaves in its argument (harness/c12.go). *)
+
+(* For EVERY layout, value list and destination — whatever the destination already holds, however little it
+   accepts — Marshal returns normally: no patch is ever out of bounds. *)
+Theorem C12_io_never_panics : forall lay vs w, fst (marshal_io lay vs w) <> MPanic.
+Proof. exact marshal_io_not_panic. Qed.
+
+(* On an encoding error the destination is exactly as it was: same octets, no Write call, same capacity.
+   (A result that is neither success nor an error of the destination itself is an encoding error, and then
+   the state is unchanged.) *)
+Theorem C12_io_error_writes_nothing : forall lay vs w r w',
+  marshal_io lay vs w = (r, w') -> (forall n, r <> MOk n) -> (forall n, r <> MWriteErr n) ->
+  w' = w /\ exists e, r = MErr e /\ marshal lay vs = Err e.
+Proof. exact marshal_io_error_untouched. Qed.
+
+(* On success, on a destination that accepts everything and already holds ANY octets: it now holds those followed
+   by exactly one frame f, handed over in one Write; the returned count is len f; and the first four octets of f
+   state len f — the octets written by this call, not what the destination holds in total. *)
+Theorem C12_io_success : forall lay vs f w,
+  marshal lay vs = Ok f -> w_room w = None ->
+  marshal_io lay vs w = (MOk (len f), {| w_got := w_got w ++ f; w_calls := w_calls w ++ [f]; w_room := None |}) /\
+  16 <= len f /\ firstn 4 f = be32 (len f mod 4294967296) /\
+  (len f < 4294967296 -> exists a b c d r, f = a :: b :: c :: d :: r /\ de32 a b c d = len f).
+Proof. exact marshal_io_success. Qed.
+
+(* A destination that gives up after k octets has received the first k octets of the frame; Marshal reports the
+   error (and, by C12_io_never_panics, does not panic).  With room for the whole frame it succeeds. *)
+Theorem C12_io_failing_writer : forall lay vs f w k,
+  marshal lay vs = Ok f -> w_room w = Some k -> k < len f ->
+  marshal_io lay vs w = (MWriteErr k, {| w_got := w_got w ++ firstn (N.to_nat k) f; w_calls := w_calls w ++ [f]; w_room := Some 0 |}).
+Proof. exact marshal_io_failing_writer. Qed.
+Theorem C12_io_roomy_writer : forall lay vs f w k,
+  marshal lay vs = Ok f -> w_room w = Some k -> len f <= k ->
+  marshal_io lay vs w = (MOk (len f), {| w_got := w_got w ++ f; w_calls := w_calls w ++ [f]; w_room := Some (k - len f) |}).
+Proof. exact marshal_io_roomy_writer. Qed.
+
+(* never more than one Write call per Marshal, whatever the destination and the outcome *)
+Theorem C12_io_at_most_one_write : forall lay vs w r w',
+  marshal_io lay vs w = (r, w') -> exists l, w_calls w' = w_calls w ++ l /\ (List.length l <= 1)%nat.
+Proof. exact marshal_io_calls. Qed.
+
+(* the hazards layer computes the functional model used by C01 C02 C13 *)
+Theorem C12_io_refines : forall lay vs w,
+  marshal_io lay vs w = match marshal lay vs with Ok f => buffer_write_to f w | Err e => (MErr e, w) | Panic => (MPanic, w) end.
+Proof. exact marshal_io_refines. Qed.
+
+(* Marshal rewrites its argument (command_id; ShortMessage.Prepare): a second Marshal of the same pointer has the
+   same outcome, and leaves the argument as the first did. *)
+Theorem C12_second_call : forall lay vs,
+  marshal lay (arg_after lay vs) = marshal lay vs /\ arg_after lay (arg_after lay vs) = arg_after lay vs.
+Proof. exact (fun lay vs => conj (marshal_again lay vs) (arg_after_idem lay vs)). Qed.
+
+(* non-vacuity of the destination clauses: a submit_sm marshalled into a buffer already holding 3 octets *)
+Example C12_io_inhabited :
+  exists f, marshal_io (nth 3 layouts (hd_layout)) C12_example_value (dest [9; 9; 9] None)
+            = (MOk 45, {| w_got := [9; 9; 9] ++ f; w_calls := [f]; w_room := None |}) /\ firstn 4 f = [0; 0; 0; 45].
+Proof. eexists. split; vm_compute; reflexivity. Qed.
+
+(* ===== The functional layer *)
 
 (* For EVERY layout (a fortiori the 33 regenerated from the code) and EVERY value
    list — no domain restriction: any int32 sequence, any status, any container
@@ -46,6 +110,14 @@ Example C12_error_inhabited :
   marshal (nth 3 layouts (hd_layout)) C12_example_oversize = Err ESize.
 Proof. exact C12_example_err. Qed.
 
+Print Assumptions C12_io_never_panics.
+Print Assumptions C12_io_error_writes_nothing.
+Print Assumptions C12_io_success.
+Print Assumptions C12_io_failing_writer.
+Print Assumptions C12_io_roomy_writer.
+Print Assumptions C12_io_at_most_one_write.
+Print Assumptions C12_io_refines.
+Print Assumptions C12_second_call.
 Print Assumptions C12_all_or_nothing.
 Print Assumptions C12_at_most_one_write.
 Print Assumptions C12_invalid_sequence.
